@@ -2,6 +2,7 @@
 import os, json, hashlib, collections, re
 from . import sexpr as S
 from . import runner
+from .extra import relation_members, relation_parse_lines, relation_probes
 from .gen import G, hx, mutate, pad_image, mutate_bye, mutate_sdes
 from .runner import ROOT, Infra
 
@@ -239,6 +240,7 @@ def gen_builds(g, n, kinds, invalid_ratio=0.2, bufs=BUILD_BUFS, big=True, tier='
     if big:
         out += ['build %s %s' % (bufs.split(',')[0] if bufs != '-' else '-', m) for m in big_members(g, kinds, tier)]
         out += ['build %s %s' % (bufs, m) for m in systematic_members(kinds)]
+        out += ['build %s %s' % (bufs, m) for m in relation_members(kinds, tier)]
     for _ in range(n):
         k = g.pick(kinds)
         valid = not g.chance(invalid_ratio)
@@ -362,6 +364,7 @@ class RoundTrip(Prop):
                                    self.gen_member(g, not g.chance(0.1))) for _ in range(n)]
         out += ['build e0:aa ' + m for m in big_members(g, self.members, tier)]
         out += ['build e0:%s %s' % (f, m) for m in systematic_members(self.members) for f in ('00', 'ff')]
+        out += ['build e0:6c %s' % m for m in relation_members(self.members, tier)]
         # the same kinds of configuration reached through other call paths (owned variants, PacketBuilder,
         # setters repeated): what is accepted must still parse back to the final configuration
         from . import props2
@@ -703,6 +706,19 @@ def edge_parse_lines(g):
         out += ['parse %s %s' % (x, hx(b)) for x in (e, 'packet', 'compound')]
     return out
 
+def relation_image_lines(h, kinds=None, also=('packet',)):
+    """images of the relation / scale members (vlib/extra.py) to their typed parser and to the entries in `also`"""
+    ms = [m for m in relation_members(kinds or ALL_LEAVES) if not m.startswith(('custom', 'compound'))]
+    out = []
+    for m, img in zip(ms, h.images(ms)):
+        if img is None or len(img) > 70000:
+            continue
+        e = entry_for_member(m)
+        out.append('parse %s %s' % (e, hx(img)))
+        for a in also:
+            out.append('parse %s %s' % (a, hx(img)))
+    return out
+
 def carry_tiles(g):
     """compounds with tiles whose length field has an all-ones low byte (0x00ff, 0x01ff, 0x02ff, 0x03ff: carries
     between the two length octets), well tiled and not"""
@@ -856,7 +872,7 @@ def fci_probes(tier):
 
 class C01(Prop):
     def probes(self, tier):
-        return fci_probes(tier)
+        return fci_probes(tier) + relation_probes(tier)
     name = 'no panic / bounded iteration over every accessor of every accepted value'
     rule = ('every parsing entry point on images of valid configurations, structure-aware mutations of them, cross-entry '
             'inputs, random framed headers and raw FCI strings; raw FCI decoders on 65536 / 65537 entries (256 KiB and more) as '
@@ -868,7 +884,7 @@ class C01(Prop):
         big = bytes([0x80 | g.r.randrange(32), 204, 0xff, 0xff]) + g.rawbytes(8) + bytes(262144 - 12)
         out.append('parse compound %s' % hx(bytes([0x80, 201, 0, 1]) + g.rawbytes(4) + big + bytes([0x80, 203, 0, 0])))
         out.append('parse packet %s' % hx(big))
-        return out + huge_inputs(g) + edge_parse_lines(g)
+        return out + huge_inputs(g) + edge_parse_lines(g) + relation_parse_lines(tier) + relation_image_lines(h, also=('packet', 'compound'))
     def relevant(self, line, impl, model):
         return kind_of(line) == 'parse'
     def proj(self, line, obs):
@@ -913,6 +929,7 @@ class C08(Prop):
                 out.append('parse packet %s' % hx(b))
             if g.chance(0.15):
                 out.append('parse unknown %s' % hx(b))
+        out += relation_parse_lines(tier) + relation_image_lines(h)
         return out
     def relevant(self, line, impl, model):
         e = entry_of(line)
@@ -988,7 +1005,8 @@ class C18(Prop):
             'non-trivial = distinct rejected input')
     def cases(self, g, tier, h):
         return (gen_header_sweep(g, full=(tier != 'quick')) + huge_inputs(g) + edge_parse_lines(g) +
-                gen_parse_mixed(g, h, 500 if tier == 'quick' else 20000, tier))
+                gen_parse_mixed(g, h, 500 if tier == 'quick' else 20000, tier) + relation_parse_lines(tier) +
+                relation_image_lines(h))
     CONV_KEYS = ('conv', 'convv', 'pconv', 'pconvv')
     CONV_TARGETS = ['app', 'bye', 'rr', 'sdes', 'sr', 'tfb', 'pfb']
     def relevant(self, line, impl, model):
